@@ -4,9 +4,10 @@ import (
 	"io"
 
 	pairing "github.com/cloudflare/circl/ecc/bls12381"
+	"golang.org/x/crypto/blake2b"
 )
 
-// C20 (CCA envelope): for every message (lengths 0..3, all bytes symbolic) and every encryption
+// C20 (CCA envelope): for every message (lengths 0, 1, 3, 55..57, 120, all bytes symbolic) and every encryption
 // seed, DecryptCCA(EncryptCCA(m)) returns exactly m when decapsulation recovers the encapsulated
 // point (the attributes satisfy the policy) - including the empty message - and fails when it does
 // not.  The pairing-based encapsulation, the header codec and the BLAKE2 primitives are replaced by
@@ -67,14 +68,25 @@ func zzStubBlakeSum256(data []byte) [32]byte {
 	return out
 }
 
-//zz:replace abe/cpabe/tkn20/internal/tkn.blakeEncrypt set=ccauf
-func zzStubBlakeEncrypt(key []byte, msg []byte) ([]byte, error) {
-	ks := zzUF("blake2xof", len(msg), key)
-	out := make([]byte, len(msg))
-	for i := range msg {
-		out[i] = ks[i] ^ msg[i]
-	}
-	return out, nil
+// the envelope cipher is the real blakeEncrypt / blakeDecrypt code over an uninterpreted keystream:
+// BLAKE2Xb(key) is a fixed 256-byte function of the key, read sequentially
+type zzXOFReader struct {
+	stream []byte
+	pos    int
+}
+
+func (r *zzXOFReader) Read(p []byte) (int, error) {
+	n := copy(p, r.stream[r.pos:])
+	r.pos += n
+	return n, nil
+}
+func (r *zzXOFReader) Write(p []byte) (int, error) { return len(p), nil }
+func (r *zzXOFReader) Clone() blake2b.XOF           { c := *r; return &c }
+func (r *zzXOFReader) Reset()                       { r.pos = 0 }
+
+//zz:replace golang.org/x/crypto/blake2b.NewXOF set=ccauf
+func zzStubNewXOF(size uint32, key []byte) (blake2b.XOF, error) {
+	return &zzXOFReader{stream: zzUF("blake2xof", 256, key)}, nil
 }
 
 //zz:replace abe/cpabe/tkn20/internal/tkn.blakeMac set=ccauf
@@ -95,7 +107,7 @@ func ZZ_C20_cca_envelope_roundtrip() {
 	zzFill("encKey", &zzEncKey)
 	zzFill("headerBytes", &zzHeaderEnc)
 	zzDecapsOK = zzPick("attributesSatisfyPolicy", 1, 0) == 1
-	msg := make([]byte, zzPick("msglen", 0, 1, 3))
+	msg := make([]byte, zzPick("msglen", 0, 1, 3, 55, 56, 57, 120)) // 72-byte seed + 56 / 120 = a whole number of 64-byte keystream blocks
 	zzFill("msg", msg)
 	ct, err := EncryptCCA(zzSeedReader{}, &PublicParams{}, &Policy{}, msg)
 	zzAssert(err == nil, "encryption succeeds")
